@@ -11,6 +11,9 @@ THEOREMS = [f"Nice.Props.C01.{t}" for t in (
     "invE_step", "invD_step", "switched_stays",
     "C01_selected_is_max_nominated", "C01_selected_was_nominated", "C01_selection_order_independent", "C01_mirror_priority_gen")]
 TRUSTED = [
+    "Nice/Gen/RoleConflict.lean: the guard of the role-switching `if` of stun_usage_ice_conncheck_create_reply (tie-breaker comparison) "
+    "is REGENERATED from stun/usages/ice.c on every run and used by the IceRole model: the convergence theorems (InvD/InvE, exactly one "
+    "controller) are re-checked against what the code compares now",
     "Lean 4 kernel; axioms propext, Classical.choice, Quot.sound only (audited every run)",
     "Nice/Model/IceRole.lean: hand-written kernels of the role-conflict decision (stun/usages/ice.c create_reply) and the 487 rule "
     "(conncheck.c), tied on every run by the role monitor: every STUN request a real agent receives in simulation is replayed "
